@@ -40,6 +40,7 @@ FRAME_AGGS = ["sum", "count", "size", "mean"]
 EXACT = {"sum", "count", "size", "value_counts"}
 
 BIN = {"add": operator.add, "sub": operator.sub, "mul": operator.mul}
+BIN_ALL = dict(BIN, div=operator.truediv)     # "div" only occurs in the oracle-only non-finite stream
 CMP = {"lt": operator.lt, "le": operator.le, "gt": operator.gt, "ge": operator.ge,
        "eq": operator.eq, "ne": operator.ne}
 
@@ -157,11 +158,11 @@ def build_c(f, e):
     if t == "col":
         return f[e[1]]
     if t == "bin":
-        return BIN[e[1]](build_c(f, e[2]), build_c(f, e[3]))
+        return BIN_ALL[e[1]](build_c(f, e[2]), build_c(f, e[3]))
     if t == "binr":
-        return BIN[e[1]](build_c(f, e[2]), e[3])
+        return BIN_ALL[e[1]](build_c(f, e[2]), e[3])
     if t == "binl":
-        return BIN[e[1]](e[2], build_c(f, e[3]))
+        return BIN_ALL[e[1]](e[2], build_c(f, e[3]))
     if t == "neg":
         return -build_c(f, e[1])
     raise ValueError(e)
@@ -366,8 +367,8 @@ def oracle_same(target, impl, want):
         return False
 
     def num(a, b):
-        if agg in EXACT:
-            return a == b
+        if agg in EXACT and not (target.get("approx") and agg == "sum"):
+            return a == b            # (None == None: NaN equals NaN; 'inf' / '-inf' compare by sign)
         if agg == "std" and isinstance(a, Fraction) and isinstance(b, Fraction):
             a, b = a * a, b * b
         return close(a, b, 1e-9)
@@ -382,6 +383,19 @@ def frame_rows(cols, df):
     return [[frac(v) for v in row] for row in df[cols].itertuples(index=False, name=None)] if len(cols) else []
 
 
+def opposite_infinities(prefix, target):
+    """does the data reaching the aggregation (any column of it, for frame aggregations) hold both +inf and -inf?"""
+    import numpy as np
+    if target["kind"] == "col":
+        ops = [build_c(prefix, target["expr"])]
+    elif target["kind"] == "frame":
+        ops = [prefix[c] for c in prefix.columns]
+    else:
+        ops = [prefix[target["val"]]]
+    return any(bool(np.isposinf(o.to_numpy(dtype="float64")).any()) and bool(np.isneginf(o.to_numpy(dtype="float64")).any())
+               for o in ops)
+
+
 def classify(target, case, k, impl, want, history):
     """stable signature naming the failing mechanism"""
     agg = target["agg"]
@@ -390,6 +404,8 @@ def classify(target, case, k, impl, want, history):
         return base + ":" + impl[0] + ":" + str(impl[1])
     if isinstance(want, dict) and isinstance(impl, dict) and set(want) != set(impl):
         return base + ":index-differs"
+    if want in ("inf", "-inf") and impl is None:
+        return base + ":nan-where-pandas-says-" + ("pos-inf" if want == "inf" else "neg-inf")
     if agg == "mean" and target["kind"] == "col":
         if want is None and impl == 0:
             return "col:mean:countless-prefix-emits-0-not-nan"
@@ -401,11 +417,16 @@ def classify(target, case, k, impl, want, history):
 def check_api(ctx, case, answers):
     t = case["target"]
     cols = case["cols"]
-    ctx.count("api:%s:%s" % (t["kind"], t["agg"]))
+    nf = case["kind"] == "nonfinite"          # oracle-only stream (values may be +-inf): never compared with the model
+    pre = "nonfinite:" if nf else ""
+    ctx.count("%s:%s:%s" % ("nonfinite" if nf else "api", t["kind"], t["agg"]))
+    if nf:
+        ctx.count("nonfinite:source:" + case.get("source", "?"))
+        ctx.count("nonfinite:placement:" + case.get("placement", "?"))
     if t["kind"] == "group":
-        ctx.count("grouper:" + t["by"])
+        ctx.count(pre + "grouper:" + t["by"])
     if t.get("route") == "expanding":
-        ctx.count("route:expanding")
+        ctx.count(pre + "route:expanding")
     with warnings.catch_warnings():
         warnings.simplefilter("ignore")
         impl = run_api_impl(case)
@@ -415,7 +436,7 @@ def check_api(ctx, case, answers):
                 ctx.count("construct-refused:example-emptied-by-filter")
             else:
                 ctx.count("construct-error")
-                ctx.failure("api:construct:" + impl["construct_error"].split(":")[0],
+                ctx.failure(pre + "api:construct:" + impl["construct_error"].split(":")[0],
                             "building the streaming graph raised " + impl["construct_error"], case)
             ctx.case(case, nontrivial=False)
             return
@@ -437,7 +458,7 @@ def check_api(ctx, case, answers):
                     frame_rows(list(want_fr.columns), got_fr) != frame_rows(list(want_fr.columns), want_fr) or \
                     list(got_fr.index) != list(want_fr.index):
                 failed = True
-                ctx.failure("map:frame-differs", "batch %d: pipeline emitted %s, pandas on that batch gives %s"
+                ctx.failure(pre + "map:frame-differs", "batch %d: pipeline emitted %s, pandas on that batch gives %s"
                             % (k, None if got_fr is None else got_fr.to_dict("list"), want_fr.to_dict("list")), case,
                             oracle="per-batch: streaming pipeline output == pandas pipeline on the batch")
                 break
@@ -447,7 +468,7 @@ def check_api(ctx, case, answers):
                 if isinstance(got_op, str) or [frac(v) for v in got_op] != [frac(v) for v in want_op] or \
                         list(got_op.index) != list(want_op.index):
                     failed = True
-                    ctx.failure("map:column-differs", "batch %d: streaming expression emitted %s, pandas on that batch gives %s"
+                    ctx.failure(pre + "map:column-differs", "batch %d: streaming expression emitted %s, pandas on that batch gives %s"
                                 % (k, got_op if isinstance(got_op, str) else list(got_op), list(want_op)), case,
                                 oracle="per-batch: streaming column expression == pandas expression on the batch")
                     break
@@ -459,11 +480,16 @@ def check_api(ctx, case, answers):
                     ctx.count("oracle:no-row-prefix:" + got[0] + ":" + str(got[1]))
                 history.append(None)
                 continue
+            if nf and opposite_infinities(prefix, t):
+                # +inf and -inf meet in one reduction: pandas' own answer is the ill-defined inf - inf; no claim
+                ctx.count("nonfinite:no-claim:opposite-infinities")
+                history.append(None)
+                continue
             want = canon_result(t, pandas_agg(prefix, t))
             n_claims += 1
             if not oracle_same(t, got, want):
                 failed = True
-                sig = classify(t, case, k, got, want, history)
+                sig = pre + classify(t, case, k, got, want, history)
                 ctx.failure(sig, "after batch %d the stream emitted %s, pandas on the concatenated prefix gives %s"
                             % (k, show(got), show(want)), case, expected=show(want), observed=show(got),
                             oracle="emission k == pandas aggregation of pd.concat(batches[:k+1]) run through the same expression tree")
@@ -1027,6 +1053,112 @@ def corpus():
     return cs
 
 
+# ------------------------------------------------------------------ oracle-only stream: non-finite values
+
+NF_AGGS = ["sum", "mean", "count", "size", "var"]
+
+
+def gen_nonfinite_case(rng):
+    """A table whose aggregated column holds +-inf: either written into the data or produced by an
+    element-wise division by a column containing 0.  The non-finite row is placed in the first batch
+    the aggregation receives, in a later batch, or right after an initial empty batch.  These cases
+    are compared with real pandas only (the Lean model is over exact rationals)."""
+    cols = list(COLS)
+    n = rng.randint(1, 9)
+    rows = []
+    for _ in range(n):
+        rows.append({"x": rng.choice([1, 2, 3, -1, -2, 4]), "y": rng.choice([-2, -1, 1, 2, 3, 0]),
+                     "g": rng.choice(KEYS)})
+        if rng.random() < 0.1:
+            rows[-1]["y"] = None
+    source = rng.choice(["data", "division", "division"])
+    placement = rng.choice(["first-batch", "later-batch", "after-empty-first-batch"])
+    k = rng.randint(1, min(3, n))                      # how many special rows
+    if placement == "later-batch" and n >= 2:
+        idx = sorted(rng.sample(range(1, n), min(k, n - 1)))
+        first_cut = rng.randint(1, idx[0])             # the first batch ends before the first special row
+    else:
+        idx = sorted(set([0] + rng.sample(range(n), k - 1)))
+        first_cut = None
+    for i in idx:
+        if source == "data":
+            rows[i]["x"] = rng.choice(["inf", "inf", "-inf"])
+        else:
+            rows[i]["x"] = 0                            # y / 0 -> +-inf, 0 / 0 -> NaN
+    # consecutive batches
+    cuts = set(rng.sample(range(1, n), rng.randint(0, min(3, n - 1)))) if n > 1 else set()
+    if first_cut is not None:
+        cuts = {c for c in cuts if c >= first_cut} | {first_cut}
+    cuts = sorted(cuts)
+    parts = [rows[i:j] for i, j in zip([0] + cuts, cuts + [n])]
+    out = []
+    if placement == "after-empty-first-batch":
+        out.append([])
+    for p in parts:
+        out.append(p)
+        if rng.random() < 0.15:
+            out.append([])
+    batches = [{c: [r[c] for r in p] for c in cols} for p in out]
+    X, Y = ["col", "x"], ["col", "y"]
+    if source == "data":
+        expr = rng.choice([X, ["bin", "add", X, Y], ["binr", "mul", X, 2], ["neg", X], ["bin", "sub", Y, X]])
+    else:
+        expr = rng.choice([["bin", "div", Y, X], ["binl", "div", 1, X], ["binl", "div", -1, X],
+                           ["bin", "add", ["bin", "div", Y, X], Y]])
+    pipe = []
+    r = rng.random()
+    agg = rng.choice(NF_AGGS)
+    if r < 0.55:
+        t = {"kind": "col", "agg": agg, "expr": expr}
+        if agg == "var":
+            t["ddof"] = rng.choice([0, 1])
+            t["route"] = rng.choice(["aggregate", "expanding"])
+        elif agg in ("sum", "mean", "count") and rng.random() < 0.15:
+            t["route"] = "expanding"
+    else:
+        pipe = [["assign", "r", expr]]
+        if rng.random() < 0.3:
+            pipe.append(["filter", ["cmpr", rng.choice(["gt", "ne", "le"]), Y, rng.choice([-1, 0, 1])]])
+        if r < 0.75:
+            t = {"kind": "frame", "agg": rng.choice(FRAME_AGGS)}
+        else:
+            t = {"kind": "group", "agg": agg, "val": "r", "ddof": rng.choice([0, 1])}
+            if rng.random() < 0.5:
+                t.update(by="name", key=["col", "g"], attr=rng.random() < 0.5)
+            else:
+                t.update(by="series", key=["col", "g"])
+    t["approx"] = True           # quotients are not exact: sums are compared with relative 1e-9
+    return {"kind": "nonfinite", "source": source, "placement": placement, "cols": cols, "batches": batches,
+            "pipe": pipe, "target": t, "setitem": rng.random() < 0.3}
+
+
+def nonfinite_corpus():
+    X, Y = ["col", "x"], ["col", "y"]
+    ratio = ["bin", "div", Y, X]
+    cs = []
+    first = [B([2, 0, 4], y=[1, 3, 2], g=[0, 1, 0]), B([5, 8], y=[10, 4], g=[1, 0]), B([1, 2], y=[7, 9], g=[1, 0])]
+    later = [B([2, 4], y=[1, 2], g=[0, 0]), B([0, 5], y=[3, 10], g=[1, 1]), B([8], y=[4], g=[0])]
+    empty_first = [B([])] + first
+    both_signs = [B([0], y=[1]), B([0, 2], y=[-1, 2]), B([3], y=[3])]
+    zero_over_zero = [B([0, 1], y=[0, 1]), B([0], y=[2])]
+    direct = [B(["inf", 1]), B([2]), B(["-inf"]), B([3])]
+    for name, batches in (("first-batch", first), ("later-batch", later), ("after-empty-first-batch", empty_first),
+                          ("first-batch", both_signs), ("first-batch", zero_over_zero)):
+        for agg in NF_AGGS:
+            cs.append({"kind": "nonfinite", "source": "division", "placement": name, "cols": COLS, "batches": batches,
+                       "pipe": [], "target": {"kind": "col", "agg": agg, "expr": ratio, "ddof": 1, "approx": True}})
+        for agg in FRAME_AGGS:
+            cs.append({"kind": "nonfinite", "source": "division", "placement": name, "cols": COLS, "batches": batches,
+                       "pipe": [["assign", "r", ratio]], "target": {"kind": "frame", "agg": agg, "approx": True}})
+        cs.append({"kind": "nonfinite", "source": "division", "placement": name, "cols": COLS, "batches": batches,
+                   "pipe": [["assign", "r", ratio]],
+                   "target": {"kind": "group", "agg": "sum", "val": "r", "by": "name", "key": ["col", "g"], "approx": True}})
+    for agg in NF_AGGS:
+        cs.append({"kind": "nonfinite", "source": "data", "placement": "first-batch", "cols": COLS, "batches": direct,
+                   "pipe": [], "target": {"kind": "col", "agg": agg, "expr": X, "ddof": 1, "approx": True}})
+    return cs
+
+
 # ------------------------------------------------------------------ exhaustive tier (direct level, shared prefixes)
 
 def exhaustive_tree(ctx, specs, alphabet, max_rows, max_empty):
@@ -1134,12 +1266,14 @@ def exhaustive_tree(ctx, specs, alphabet, max_rows, max_empty):
 def run_cases(ctx, cases):
     lines, spans = [], []
     for c in cases:
-        ml = api_lines(c) if c["kind"] == "api" else direct_lines(c)
+        ml = [] if c["kind"] == "nonfinite" else (api_lines(c) if c["kind"] == "api" else direct_lines(c))
         spans.append((len(lines), len(lines) + len(ml)))
         lines += ml
     answers = common.lean_driver("Agg", lines) if lines else []
     for c, (a, b) in zip(cases, spans):
-        if c["kind"] == "api":
+        if c["kind"] == "nonfinite":
+            check_api(ctx, c, None)          # oracle only: real streamz vs real pandas
+        elif c["kind"] == "api":
             check_api(ctx, c, answers[a:b])
         else:
             check_direct(ctx, c, answers[a:b])
@@ -1162,15 +1296,23 @@ def run(ctx):
         "Series results are compared as finite maps key -> value (index order canonicalised)",
         "Frame has no plain .var()/.std(): var/std over the whole history are reached through Frame.aggregate(Var(ddof)) ** 0.5 and through sdf.expanding().var()/std()",
         "Var raises ZeroDivisionError while no row has arrived (prefix without rows: no claim); the harness continues past it",
+        "non-finite values: the Lean model is over exact rationals and has no +-inf, so the cases of kind 'nonfinite' (+-inf written "
+        "into the data, or produced by element-wise division by a column containing 0; placed in the first batch the aggregation "
+        "receives, in a later batch, or after an initial empty batch) are ORACLE-ONLY: the real stream is compared with real pandas "
+        "on the concatenated prefix (NaN equals NaN, inf equals inf of the same sign, finite sums/means/variances relative 1e-9) and "
+        "they are never sent to the model driver; they are counted under the 'nonfinite:' keys of the distribution and do not "
+        "contribute to traces_validated_against_impl",
     ]
-    n_api, n_direct = (1200, 600) if not ctx.thorough() else (8000, 4000)
-    cases = corpus()
+    n_api, n_direct, n_nonfinite = (1200, 600, 300) if not ctx.thorough() else (8000, 4000, 3000)
+    cases = corpus() + nonfinite_corpus()
     # every aggregation gets its share of api cases
     aggs = SCALAR_AGGS
     for i in range(n_api):
         cases.append(gen_api_case(ctx.rng, aggs[i % len(aggs)] if i % 2 == 0 else None))
     for i in range(n_direct):
         cases.append(gen_direct_case(ctx.rng, DIRECT_AGGS[i % len(DIRECT_AGGS)]))
+    for i in range(n_nonfinite):
+        cases.append(gen_nonfinite_case(ctx.rng))
     # chunk so that one driver process handles a bounded script
     for i in range(0, len(cases), 2000):
         run_cases(ctx, cases[i:i + 2000])
@@ -1195,7 +1337,7 @@ def run(ctx):
         "state compared after every call. thorough adds every composition of every table with <=6 rows over {1,2,NaN} (<=5 rows with one empty batch anywhere, "
         "<=4 rows with up to 3 empty batches) for the column aggregations and <=4 rows over {1,2,NaN}x{0,1} (<=3 rows with up to 2 empty batches, "
         "or with NaN keys) for the groupby aggregations, as a prefix tree: real object, model and pandas-on-the-concatenation compared at every node. "
-        "Non-trivial api case: >=2 emissions compared with pandas and (an empty batch or a non-empty pipeline); direct: >=2 oracle claims. "
+        "A separate oracle-only stream (kind nonfinite, not sent to the model) puts +-inf into the aggregated column. Non-trivial api case: >=2 emissions compared with pandas and (an empty batch or a non-empty pipeline); direct: >=2 oracle claims. "
         "Distinct = distinct case JSON.")
 
 
@@ -1203,6 +1345,10 @@ def replay(ctx, data):
     ctx.audit()
     quiet()
     c = data["case"]
+    if c["kind"] == "nonfinite":
+        check_api(ctx, c, None)
+        ctx.coverage["rule"] = "replay of one recorded oracle-only (non-finite) case"
+        return
     lines = api_lines(c) if c["kind"] == "api" else direct_lines(c)
     answers = common.lean_driver("Agg", lines)
     if c["kind"] == "api":
